@@ -135,6 +135,39 @@ def gen_comp(rng, name="comp", step=60):
     return mg.Repo(name, commits, heads, tags), versions
 
 
+def gen_comp_with_merges(rng, name="comp", step=60):
+    """a component whose main line is no line: topic branches fork from it and are merged back (the topic as the
+    first or as the last parent of the merge), builds are made on the main commits and on the topics"""
+    commits, tags, versions = {}, {}, []
+    base = 1_600_000_000
+    major, minor = 10, 20
+    state = {'cid': 0, 'bn': 0}
+
+    def add(parents, build_p=0.6):
+        state['cid'] += 1
+        cid = state['cid']
+        msg = "BUG-7 c%d" % cid if rng.random() < 0.5 else "misc"
+        commits[cid] = mg.Commit(name, cid, [commits[p] for p in parents], msg, base + cid * step, {})
+        if rng.random() < build_p:
+            state['bn'] += 1
+            tags[f"build_{state['bn']}_release_{major}_{minor}_success"] = cid
+            versions.append((cid, (major, minor, state['bn'])))
+        return cid
+
+    main = [add([])]
+    for _ in range(rng.randint(2, 7)):
+        if len(main) >= 2 and rng.random() < 0.4:
+            fork = rng.choice(main[:-1])
+            tip = fork
+            for _ in range(rng.randint(1, 2)):
+                tip = add([tip], build_p=0.5)
+            main.append(add([main[-1], tip] if rng.random() < 0.5 else [tip, main[-1]], build_p=0.8))
+        else:
+            main.append(add([main[-1]]))
+    heads = {"origin/release/%d.%d" % (major, minor): main[-1]}
+    return mg.Repo(name, commits, heads, tags), versions
+
+
 def gen_parent(rng, versions, versions2=None, comp=None, comp2=None, step=60):
     """commit times are consistent: a parent commit is younger than the component commits it pins"""
     n = rng.randint(2, 12)
@@ -521,6 +554,15 @@ def judge_component(ctx, data, cname, comp, par, versions, pins, case):
                     fits.sort(key=lambda f: not f[0])
                     _, cont, minimal = fits[0]
                 exp_names = set().union(*[bnames(x) for x in minimal]) if minimal else set()
+                # left open (DESIGN 6.2): a component build that a parent build shipped, a later parent build on the
+                # way did NOT ship any more (its pin moved to a parallel sub-branch of the component), and a still later
+                # one ships again - whether it is recorded once more at the build that ships it again
+                again = {x for x in cont - minimal
+                         if any(y in pins and not contains(y) and any(z in mg.ancestors(par.commits[y]) for z in cont)
+                                for y in mg.ancestors(par.commits[x]) - {x})}
+                if again:
+                    ctx.count("component_builds_shipped_again_after_a_parent_build_had_dropped_them")
+                    exp_names = exp_names | set().union(*[bnames(x) for x in again])
                 where = {"component_branch": cbr.branch_name, "component_build_commit": rc,
                          "parent_branch": b, "included_at": g}
                 pair = len(trunks) == 2 and b == trunks[0]
@@ -719,7 +761,11 @@ def run_shard(ctx):
         step = 60 if rng.random() < 0.6 else rng.choice([7 * 3600, 2 * 86400])
         if step > 60:
             ctx.count("histories_spread_over_days")
-        comp, versions = gen_comp(rng, step=step)
+        if i % 9 == 4:
+            comp, versions = gen_comp_with_merges(rng, step=step)
+            ctx.count("components_whose_main_line_has_merges")
+        else:
+            comp, versions = gen_comp(rng, step=step)
         if not versions:
             ctx.count("component_without_builds(skipped)")
             continue
